@@ -33,6 +33,16 @@ def step (s : S) (line : String) : S × String :=
     let kind := if k == "single" then SlotKind.single else if k == "set" then .set else .list
     ({ kind := kind, items := [] }, "ok items= notifs=")
   | _ =>
+    match ws with
+    | "setslice" :: a :: b :: ys =>
+      (match a.toNat?, b.toNat?, ys.mapM String.toNat? with
+       | some a, some b, some ys =>
+         if s.kind == .list then
+           let o := sliceStep s.items a b ys
+           ({ s with items := o.items }, s!"ok items={fmtList o.items} notifs={";".intercalate (o.notifs.map fmtNotif)}")
+         else (s, "bad-op")
+       | _, _, _ => (s, "bad-op"))
+    | _ =>
     match parseOp ws with
     | none => (s, "bad-op")
     | some op =>
